@@ -301,6 +301,13 @@ namespace link_layer {
 
                     commit = false;
 
+                    // the answer to a PHY update procedure that was started by this side
+                    if ( link_layer.phy_update_request_running_ )
+                    {
+                        link_layer.phy_update_request_running_ = false;
+                        link_layer.procedure_timeout_ = delta_time();
+                    }
+
                     if ( c_to_p == phy_ll_encoding::le_unchanged_coding
                       && p_to_c == phy_ll_encoding::le_unchanged_coding )
                     {
@@ -856,6 +863,7 @@ namespace link_layer {
         bool                            connection_parameters_request_running_;
         bool                            connection_parameters_request_use_signaling_channel_;
         bool                            phy_update_request_pending_;
+        bool                            phy_update_request_running_;
         std::uint8_t                    phy_update_request_transmit_;
         std::uint8_t                    phy_update_request_receive_;
         bool                            remote_versions_request_pending_;
@@ -893,6 +901,7 @@ namespace link_layer {
         , connection_parameters_request_pending_( false )
         , connection_parameters_request_running_( false )
         , phy_update_request_pending_( false )
+        , phy_update_request_running_( false )
         , remote_versions_request_pending_( false )
         , version_indication_received_( false )
         , version_indication_sent_( false )
@@ -951,6 +960,7 @@ namespace link_layer {
                 connection_parameters_request_running_  = false;
                 connection_parameters_request_use_signaling_channel_ = false;
                 phy_update_request_pending_             = false;
+                phy_update_request_running_             = false;
                 pending_event_                          = false;
                 remote_versions_request_pending_        = false;
                 version_indication_received_            = false;
@@ -1304,7 +1314,9 @@ namespace link_layer {
         }
         else if ( phy_update_request_pending_ )
         {
+            procedure_timeout_ = delta_time( default_procedure_timeout_us );
             phy_update_request_pending_ = false;
+            phy_update_request_running_ = true;
 
             fill< layout_t >( out_buffer, {
                 ll_control_pdu_code, 3, LL_PHY_REQ,
@@ -1654,6 +1666,12 @@ namespace link_layer {
             else if ( ( opcode == LL_UNKNOWN_RSP && size == 2 ) || ( opcode == LL_REJECT_IND && size == 2 ) || ( opcode == LL_REJECT_EXT_IND && size == 3 ) )
             {
                 bool opcode_contains_request = opcode == LL_UNKNOWN_RSP || opcode == LL_REJECT_EXT_IND;
+
+                if ( phy_update_request_running_ && ( !opcode_contains_request || body[ 1 ] == LL_PHY_REQ ) )
+                {
+                    phy_update_request_running_ = false;
+                    procedure_timeout_ = delta_time();
+                }
 
                 if ( !opcode_contains_request || ( opcode_contains_request && body[ 1 ] == LL_CONNECTION_PARAM_REQ ) )
                 {
